@@ -156,6 +156,7 @@ fn run_all(_quick: bool, only: Option<&serde_json::Value>) -> String {
     let scopes = scope_sets();
     let (mut evals, mut granted_n, mut chains) = (0u64, 0u64, 0u64);
     let mut bad: Vec<serde_json::Value> = Vec::new();
+    let mut samples: Vec<serde_json::Value> = Vec::new();
     let mut reasons: std::collections::BTreeMap<String, u64> = Default::default();
     let ctxa = AuthorisationRequestContext::default();
     for (ci, c) in cs.iter().enumerate() {
@@ -175,6 +176,9 @@ fn run_all(_quick: bool, only: Option<&serde_json::Value>) -> String {
                         let got = idm.read(|r| r.check_oauth2_authorisation(ident.as_ref(), &req, &ctxa, ct));
                         let want = reference(c, *exact, *loopback, *who, sc, pk);
                         let describe = || format!("client {{public: {}, localhost allowed: {}, pkce disabled: {}, G_MAIN -> {:?}, extra map: {}, sup map: {}}}, redirect `{ruri}` ({rlabel}), scopes {sc:?}, pkce {pk:?}, {who:?}", c.public, c.allow_localhost, c.pkce_disabled, c.main_scopes, c.extra_map, c.sup_map);
+                        if evals % 997 == 1 && samples.len() < 6 {
+                            samples.push(json!({"request": describe(), "answer": match &got { Ok(AuthoriseResponse::ConsentRequested { scopes, .. }) => format!("consent requested for {scopes:?}"), Ok(_) => "permitted / other".to_string(), Err(e) => format!("refused: {}", oe(e)) }}));
+                        }
                         match (&got, &want) {
                             (Ok(AuthoriseResponse::ConsentRequested { scopes: g, consent_token, .. }), Ok(w)) => {
                                 granted_n += 1;
@@ -241,7 +245,7 @@ fn run_all(_quick: bool, only: Option<&serde_json::Value>) -> String {
             }
         }
     }
-    json!({"evals": evals, "granted": granted_n, "chains": chains, "bad": bad, "refusals": reasons, "clients": cs.len(), "redirects": reds.len(), "scope_sets": scopes.len()}).to_string()
+    json!({"samples": samples, "evals": evals, "granted": granted_n, "chains": chains, "bad": bad, "refusals": reasons, "clients": cs.len(), "redirects": reds.len(), "scope_sets": scopes.len()}).to_string()
 }
 
 fn oe(e: &Oauth2Error) -> String {
@@ -264,9 +268,11 @@ pub fn run(args: &[String]) -> ! {
     for b in v["bad"].as_array().cloned().unwrap_or_default() {
         ctx.violation(b["key"].as_str().unwrap_or("?"), b["what"].as_str().unwrap_or(""), b["case"].clone());
     }
+    for sm in v["samples"].as_array().cloned().unwrap_or_default() {
+        ctx.sample(sm);
+    }
     ctx.set("evaluations", v["evals"].as_u64().unwrap_or(0));
     ctx.set("distinct_nontrivial", v["granted"].as_u64().unwrap_or(0));
-    ctx.set("requests_granted", v["granted"].as_u64().unwrap_or(0));
     ctx.set("full_chains_consent_permit_exchange", v["chains"].as_u64().unwrap_or(0));
     ctx.set("refusals_by_kind", v["refusals"].clone());
     ctx.set("rule", format!("{} client configurations (basic / basic without PKCE / public / public with localhost redirects; 2 scope maps; with and without a second scope map and a supplementary map) x {} redirect uris (4 registered incl. the landing page, 15 near misses and tricks, 3 loopback forms) x {} scope sets (<= 3 of openid, email, groups, supplement, bogus) x PKCE {{absent, S256}} x identities (nobody, anonymous, all 8 users by membership of the three groups)", v["clients"], v["redirects"], v["scope_sets"]));
